@@ -381,7 +381,9 @@ func genLookupUniverse(t *rapid.T) lookupUniverse {
 		}
 	}
 	// anchors: three instants, the first also in another zone, the second ±1ns
-	base := rapid.SampledFrom([]int64{1136214245, 1500000000, -9000000000}).Draw(t, "base")
+	// instants: ordinary ones, and two outside the range an int64 of nanoseconds can hold
+	// (years 1336 and 2381; RFC 3339 anchors cover the years 0000-9999)
+	base := rapid.SampledFrom([]int64{1136214245, 1500000000, -9000000000, -20000000000, 13000000000}).Draw(t, "base")
 	anchors := []*model.TimeSpec{
 		nil,
 		tsp(base, 0, 0),
@@ -411,6 +413,10 @@ func genLookupUniverse(t *rapid.T) lookupUniverse {
 		{L: &model.LitSpec{Kind: "text", S: "1"}},
 		{L: &model.LitSpec{Kind: "bool", B: true}},
 		{L: &model.LitSpec{Kind: "float64", F: 0x3ff0000000000000}},
+		{L: &model.LitSpec{Kind: "float64", F: 0x3ff000001ad7f29b}}, // 1.0000001
+		{L: &model.LitSpec{Kind: "float64", F: 0x3ff0000035afe535}}, // 1.0000002
+		{L: &model.LitSpec{Kind: "int64", I: 1 << 55}},
+		{L: &model.LitSpec{Kind: "int64", I: 1<<55 + 1}},
 		{P: &model.PredSpec{ID: "p"}},
 		{P: &model.PredSpec{ID: "p", Anchor: tsp(base, 0, 0)}},
 		{P: &model.PredSpec{ID: "p", Anchor: tsp(base+86400, 500000000, 0)}},
@@ -418,7 +424,7 @@ func genLookupUniverse(t *rapid.T) lookupUniverse {
 		{P: &model.PredSpec{ID: "r", Anchor: tsp(base-5, 0, 0)}},
 	}
 	for _, e := range extra {
-		if rapid.IntRange(0, 2).Draw(t, "keepobj") > 0 {
+		if gen.Maybe(t, 40, "keepobj") {
 			u.Objects = append(u.Objects, e)
 		}
 	}
